@@ -50,6 +50,8 @@ REWRITES = [
      "same-named functions of different modules get the module as prefix: lms::verify::verify -> lms_verify (definitions renamed with @opt rename)"),
     ("R9-flatten", re.compile(r"\b(?:crate::)?(?:(?:lm_ots|lms|hss|util|constants|hasher|signing|verify|definitions|parameters|parameter|keygen|helper|coef|aux|reference_impl_private_key|seed_derive|super)::)+(?=[A-Za-z_])"), "",
      "crate-internal module paths flattened (single-file Verus): lm_ots::signing::X -> X"),
+    ("R16-clone", re.compile(r"((?:\(\*[A-Za-z_][\w\.]*\.idx\((?:[^()]|\([^()]*\))*\)\)|[A-Za-z_][\w]*)(?:\.[A-Za-z_]\w*)*)\.clone\(\)"),
+     r"clone_of(&\1)", "E.clone() on a value of a derive(Clone) plain-data struct -> clone_of(&E): derived Clone = field-wise copy (assumed: r == *E)"),
     ("R5", re.compile(r"H::OUTPUT_SIZE\.into\(\)"), r"(H::OUTPUT_SIZE as usize)", "H::OUTPUT_SIZE.into() -> H::OUTPUT_SIZE as usize (lossless widening)"),
 ]
 
@@ -464,8 +466,25 @@ def rewrite_arrayvec(text, counts):
     return "".join(out)
 
 
-def apply_rewrites(text, counts):
+def rewrite_index(text, names, counts):
+    """R12 (declared per item with `@opt idx=a,b.c`): indexing of a fixed-capacity vector through tinyvec's Index / IndexMut
+    impls: `&mut NAME[E]` -> `NAME.idx_mut(E)`, `NAME[E]` -> `(*NAME.idx(E))` (stand-in methods: panic iff E >= len)."""
+    for name in names:
+        rx = re.compile(r"(&mut\s+)?(?<![\w\.])%s\[((?:[^\[\]]|\[[^\[\]]*\])*)\]" % re.escape(name))
+
+        def rep(m):
+            counts["R12-index"] = counts.get("R12-index", 0) + 1
+            if m.group(1):
+                return "%s.idx_mut(%s)" % (name, m.group(2))
+            return "(*%s.idx(%s))" % (name, m.group(2))
+        text = rx.sub(rep, text)
+    return text
+
+
+def apply_rewrites(text, counts, idx_names=None):
     text = rewrite_arrayvec(text, counts)
+    if idx_names:
+        text = rewrite_index(text, idx_names, counts)
     text, n = re.subn(r"\bfor _ in\b", "for _i in", text)
     if n:
         counts["R8-for-underscore"] = counts.get("R8-for-underscore", 0) + n
@@ -552,7 +571,7 @@ def render_fn(item, cut, counts):
         inserts.append((le + 1, "/*@hint-begin*/\n" + text + "\n/*@hint-end*/\n"))
     for pos, text in sorted(inserts, key=lambda x: -x[0]):
         body = body[:pos] + text + body[pos:]
-    body = apply_rewrites(body, counts)
+    body = apply_rewrites(body, counts, [x.strip() for x in opts.get("idx", "").split(",") if x.strip()])
     sig = apply_rewrites(sig, counts)
     for key in sorted(k for k in opts if k.startswith("bodysub")):
         # @opt bodysub=|regex|replacement| : declared per-item rewrite (type annotations, ==/!= on derived PartialEq), counted
@@ -585,6 +604,12 @@ def generate(u, repo=None):
             text = cut["text"]
             # R0: drop derives/attrs is implicit (we cut from the keyword); pub(crate) kept
             text = apply_rewrites(text, counts)
+            if it["opts"].get("needs_derive"):
+                # the item must still carry these derives in /repo (their semantics is assumed by a rewrite, e.g. R16 clone_of)
+                want = [x.strip() for x in it["opts"]["needs_derive"].split(",")]
+                missing = [x for x in want if x not in cut.get("derives", [])]
+                if missing:
+                    raise Undecided("lost anchor: %s no longer derives %s" % (it["name"], missing))
             if it["opts"].get("keep_derive"):
                 want = [x.strip() for x in it["opts"]["keep_derive"].split(",")]
                 missing = [x for x in want if x not in cut.get("derives", [])]
